@@ -34,14 +34,20 @@ CONSTANTS
     K,          \* history sample: number of most recent blocks (10 in the code)
     Batch,      \* blocks per SendV2Blocks request (100 in the code)
     ReqH,       \* v2 require height: batches based at or above it use checkpoint + pre-validation
+    AllowH,     \* v2 allow height: blocks in [AllowH, ReqH) may be v1 or v2 (T.v1)
     HistAnchor, \* TRUE: the sample ends with the node's lowest block (as genesis does for a full node)
     DevOutlineSidechainBan, \* TRUE: named deviation, see RelayOutline
     ZTops,      \* header chains a Byzantine peer may offer end in one of these blocks (Blocks: any)
     ZRem,       \* values of `remaining = 0` a Byzantine peer may claim (BOOLEAN: any)
+    DevCheckpointFromAllow, \* TRUE: self-test mutation -- the WORKER picks the checkpoint path from the allow height on
+    DevSkipSeenValidation,  \* TRUE: self-test mutation -- pre-validation is skipped for blocks whose state is already stored
     DevNoPreValidation, \* TRUE: self-test mutation -- batches above the require height are submitted without ValidateBlock
     Labels      \* TRUE: act carries the transition label (edge export, safety runs with VIEW); FALSE: constant
 
 Nodes == H \cup Z
+
+\* a v1 block is only legal below the require height
+ASSUME \A b \in DOMAIN T.par : T.v1[b] => T.h[b] < ReqH
 Blocks == DOMAIN T.par
 LinkState == {"off", "unsynced", "synced"}
 
@@ -131,7 +137,13 @@ BatchOf(n) == LET hs == Hdrs(n)
 
 \* an honest peer w can serve the batch: SendCheckpoint/SendV2Blocks answer from its best chain
 \* only (chain/manager.go:213-241, peer.go:338-351), at most Cap[w] blocks per request
+\* the request path is a function of the batch's BASE height (parallel_sync.go:57); the checkpoint path
+\* needs the base block itself to be a v2 block (Peer.SendCheckpoint: "checkpoint is not a v2 block")
+WorkerCheckpointPath(base) == T.h[base] >= (IF DevCheckpointFromAllow THEN AllowH ELSE ReqH)
+Fetchable(bs) == WorkerCheckpointPath(T.par[bs[1]]) => ~T.v1[T.par[bs[1]]]
+
 CanServe(w, bs) ==
+    /\ Fetchable(bs)
     /\ Len(bs) <= Cap[w]
     /\ OnBest(w, T.par[bs[1]])
     /\ \A i \in DOMAIN bs : OnBest(w, bs[i])
@@ -230,7 +242,9 @@ HandleRespByz(n, z) ==
 \* the batch is served by worker w with exactly the announced blocks and applied
 ApplyBatch(n, w, bs) ==
     LET validated == T.h[T.par[bs[1]]] >= ReqH IN
-    IF validated /\ ~DevNoPreValidation /\ \E i \in DOMAIN bs : T.cls[bs[i]] # "ok"
+    \* known[n] holds every block whose (header) state is stored -- including blocks that were submitted,
+    \* failed full validation and were rolled back (chain/manager.go:276-278): "stored" is not "validated"
+    IF validated /\ ~DevNoPreValidation /\ \E i \in DOMAIN bs : T.cls[bs[i]] # "ok" /\ (DevSkipSeenValidation => bs[i] \notin known[n])
       THEN \* consensus.ValidateBlock against the checkpoint-derived state fails: ban, batch discarded
            /\ BanUpd(n, w)
            /\ misb' = IF w \in Z THEN misb \cup {<<n, w>>} ELSE misb
@@ -266,6 +280,7 @@ FetchByz(n, z) ==
     /\ sync[n].on
     /\ sync[n].nxt < NBatches(n)
     /\ link[<<n, z>>] = "unsynced"
+    /\ Fetchable(BatchOf(n))
     /\ ApplyBatch(n, z, BatchOf(n))
     /\ UNCHANGED <<round, seen, htip, goal>>
 
